@@ -114,7 +114,13 @@ Obs(M, v) ==
         minors |-> LeadMinors(M), det |-> d, adj |-> ad, b |-> b, adjb |-> ab,
         tolA |-> TolA, tolX |-> TolX(M, ab), tolInv |-> TolX(M, ad),
         tolDet |-> TolA * Len(M) * Norm1(ad) + d,
-        condLo |-> <<1, 1>>, condHi |-> <<Len(M) * Norm1(M) * Norm1(ad), d>>]
+        \* bounds of any estimate  anorm * est(|A^-1|_1)  with anorm >= |A|_1 and a Hager/Higham estimator started
+        \* at e/n (its estimates never decrease and never exceed the true norm):
+        \*    |A|_1 |A^-1 e|_1 / n  <=  Cond  <=  (anorm / |A|_1) * cond_1(A)
+        \* anorm = |A|_1 after Factorize (condHiF); anorm = |U|_1 |U|_inf <= n |A|_1 after an update (condHi)
+        condLo |-> <<Norm1(M) * SumSeq([i \in 1..Len(M) |-> Abs(SumSeq(ad[i]))]), Len(M) * d>>,
+        condHiF |-> <<Norm1(M) * Norm1(ad), d>>,
+        condHi |-> <<Len(M) * Norm1(M) * Norm1(ad), d>>]
 
 (********************************* actions **********************************)
 Do(o) ==
